@@ -1483,6 +1483,18 @@ func (d *DotGit) openAndLockPackedRefs(doCreate bool) (
 	return f, nil
 }
 
+// packedRefsFs returns the filesystem that holds packed-refs. The temporary
+// file a rewritten packed-refs is written to has to be created, renamed and
+// removed there: for a linked worktree that is the common directory, not the
+// worktree's private one, or the rename would create a private packed-refs
+// and leave the shared one untouched.
+func (d *DotGit) packedRefsFs() billy.Filesystem {
+	if rfs, ok := d.fs.(*RepositoryFilesystem); ok {
+		return rfs.mapToRepositoryFsByPath(packedRefsPath)
+	}
+	return d.fs
+}
+
 func (d *DotGit) rewritePackedRefsWithoutRef(name plumbing.ReferenceName) (err error) {
 	pr, err := d.openAndLockPackedRefs(false)
 	if err != nil {
@@ -1495,14 +1507,14 @@ func (d *DotGit) rewritePackedRefsWithoutRef(name plumbing.ReferenceName) (err e
 
 	// Creating the temp file in the same directory as the target file
 	// improves our chances for rename operation to be atomic.
-	tmp, err := d.fs.TempFile("", tmpPackedRefsPrefix)
+	tmp, err := d.packedRefsFs().TempFile("", tmpPackedRefsPrefix)
 	if err != nil {
 		return err
 	}
 	tmpName := tmp.Name()
 	defer func() {
 		ioutil.CheckClose(tmp, &err)
-		_ = d.fs.Remove(tmpName) // don't check err, we might have renamed it
+		_ = d.packedRefsFs().Remove(tmpName) // don't check err, we might have renamed it
 	}()
 
 	s := bufio.NewScanner(pr)
@@ -1700,14 +1712,14 @@ func (d *DotGit) PackRefs() (err error) {
 	}
 
 	// Write them all to a new temp packed-refs file.
-	tmp, err := d.fs.TempFile("", tmpPackedRefsPrefix)
+	tmp, err := d.packedRefsFs().TempFile("", tmpPackedRefsPrefix)
 	if err != nil {
 		return err
 	}
 	tmpName := tmp.Name()
 	defer func() {
 		ioutil.CheckClose(tmp, &err)
-		_ = d.fs.Remove(tmpName) // don't check err, we might have renamed it
+		_ = d.packedRefsFs().Remove(tmpName) // don't check err, we might have renamed it
 	}()
 
 	w := bufio.NewWriter(tmp)
